@@ -211,6 +211,9 @@ def is_pyint(t):
         return is_pyint(t[2])
     if tag == 'ite':
         return is_pyint(t[2]) and is_pyint(t[3])
+    if tag == 'idx' and is_int(t[2]) and t[2][1] in (0, 1) and t[1][0] == 'call' and t[1][1] == ('b', 'divmod') \
+            and len(t[1][2]) == 2 and not t[1][3]:
+        return is_pyint(t[1][2][0]) and is_pyint(t[1][2][1])      # quotient and remainder of two ints
     return False
 
 
@@ -277,6 +280,9 @@ def kind_of(t):
         return kind_of(t[2])
     if tag == 'hoist':
         return kind_of(t[1])
+    if tag == 'ite' and len(t) == 4:
+        k = kind_of(t[2])
+        return k if k is not None and k == kind_of(t[3]) else None
     if tag == 'call':
         f = t[1]
         name = None
@@ -436,6 +442,14 @@ def canon_range(n):
     return ('range', C(0), n, C(1))
 
 
+def range_len(r):
+    """len(r) for a range object, without the C ssize_t limit of len()."""
+    a, b, st = r.start, r.stop, r.step
+    if st > 0:
+        return max(0, (b - a + st - 1) // st)
+    return max(0, (a - b - st - 1) // (-st))
+
+
 def canon_seq(S, opts=None):
     """(length term, k -> element term) for an iterable that is certainly indexable, else None (opaque iterator)"""
     tag = S[0]
@@ -460,13 +474,13 @@ def canon_seq(S, opts=None):
             n = b
         else:
             try:
-                n = C(len(to_py(S)))
+                n = C(range_len(to_py(S)))
             except (NotConcrete, OverflowError):
                 n = ('call', ('b', 'len'), (S,), ())
                 if is_int(st) and st[1] != 0 and is_pyint(a) and is_pyint(b):
                     d_ = mk_bin('+', b, mk_neg(a, opts), Opts(plus_commutes=True))
                     if is_int(d_):
-                        n = C(len(range(0, d_[1], st[1])))         # range(a, a+c, st) has a constant length
+                        n = C(range_len(range(0, d_[1], st[1])))   # range(a, a+c, st) has a constant length
         return n, (lambda k: mk_bin('+', a, mk_bin('*', st, k, opts), opts))
     if tag == 'call' and S[1] == ('b', 'reversed') and len(S[2]) == 1 and not S[3]:
         inner = canon_seq(S[2][0], opts)
@@ -854,6 +868,13 @@ def _int_norm(d):
 
 
 def mk_cmp(op, a, b):
+    # a comparison with a conditional operand that is decided in one arm:  x < (x if c else y)  is  (False if c else x < y)
+    for side, x in ((0, a), (1, b)):
+        if x[0] == 'ite' and (a, b)[1 - side][0] != 'ite':
+            r1 = mk_cmp(op, x[2], b) if side == 0 else mk_cmp(op, a, x[2])
+            r2 = mk_cmp(op, x[3], b) if side == 0 else mk_cmp(op, a, x[3])
+            if is_c(r1) or is_c(r2):
+                return mk_ite(x[1], r1, r2)
     # fold
     if is_c(a) and is_c(b) or (op in ('in', 'notin') and is_c(a) and b[0] in ('list', 'tuple', 'set', 'dict', 'range', 'c')):
         try:
@@ -953,9 +974,59 @@ def mk_bool(op, items):
             continue
     if not res:
         return out[-1]
+    # neighbouring operands that are Boolean, free of effects and cannot raise ('k' in **kargs, <parameter> is None) commute
+    i = 0
+    while i < len(res):
+        j = i
+        while j < len(res) and _total_atom(res[j]):
+            j += 1
+        if j - i >= 2:
+            run = []
+            for x in sorted(res[i:j], key=skey):
+                if x not in run:
+                    run.append(x)
+            res[i:j] = run
+            j = i + len(run)
+        i = max(j, i + 1)
     if len(res) == 1:
         return res[0]
     return (op, tuple(res))
+
+
+def _assume(t, val):
+    """decide, in the CONDITIONS of the conditionals inside t, the total atoms of val"""
+    def bs(c):
+        if c in val:
+            return C(val[c])
+        if c[0] == 'not':
+            return mk_not(bs(c[1]))
+        if c[0] in ('and', 'or'):
+            items = [bs(x) for x in c[1]]
+            unit = C(c[0] == 'and')
+            rest = [x for x in items if x != unit]          # in a condition only the truth value counts
+            if len(rest) < len(items) and (not rest or all(is_boolean(x) or is_c(x) for x in rest)):
+                items = rest or [unit]
+            return mk_bool(c[0], items)
+        return c
+    sub = {}
+    for x in walk(t):
+        if x[0] == 'ite' and len(x) == 4 and x not in sub and bs(x[1]) != x[1]:
+            sub[x] = None
+    if not sub:
+        return t
+    for x in list(sub):
+        sub[x] = mk_ite(bs(x[1]), _assume(x[2], val), _assume(x[3], val))
+    return substitute(t, sub)
+
+
+def _total_atom(x):
+    if x[0] == 'not':
+        return _total_atom(x[1])
+    if x[0] == 'cmp' and x[1] == 'in' and is_c(x[2]) and type(x[2][1]) is str and x[3][0] == 'sym' and x[3][1].startswith('**'):
+        return True
+    if x[0] == 'cmp' and x[1] == 'is' and NONE in (x[2], x[3]) and all(y == NONE or y[0] == 'arg' for y in (x[2], x[3])):
+        return True
+    return False
 
 
 def _seq_valued(x):
@@ -1004,10 +1075,37 @@ def mk_ite(c, a, b):
     c, flipped = canon_cond(c)
     if flipped:
         a, b = b, a
-    if a == C(True) and b == C(False) and is_boolean(c):
+    # inside an arm, nested conditions need not test again what the outer condition has decided - for tests that are pure and
+    # cannot raise only (_total_atom), so that no evaluation, and no order of evaluations, is lost
+    if c[0] != 'c':
+        tot = {}
+        for x in (c[1] if c[0] == 'and' else (c,)):
+            if _total_atom(x):
+                tot[x[1] if x[0] == 'not' else x] = (x[0] != 'not')
+        if tot:
+            a = _assume(a, tot)
+            if c[0] != 'and':
+                b = _assume(b, {k: not v for k, v in tot.items()})
+            if a == b:
+                return a
+    if is_c(a) and is_c(b) and a[1] is True and b[1] is False and is_boolean(c):      # (1 if c else 0 is an int, not c)
         return c
-    if a == C(False) and b == C(True) and is_boolean(c):
+    if is_c(a) and is_c(b) and a[1] is False and b[1] is True and is_boolean(c):
         return mk_not(c)
+    # a Boolean choice with one constant arm is a conjunction / disjunction (same evaluation order, Boolean values)
+    if is_boolean(c):
+        if is_c(a) and a[1] is True and is_boolean(b):
+            return mk_bool('or', [c, b])
+        if is_c(a) and a[1] is False and is_boolean(b):
+            return mk_bool('and', [mk_not(c), b])
+        if is_c(b) and b[1] is True and is_boolean(a):
+            return mk_bool('or', [mk_not(c), a])
+        if is_c(b) and b[1] is False and is_boolean(a):
+            return mk_bool('and', [c, a])
+    # the same object with the same attributes written on either side: one object with conditional attribute values
+    if a[0] == 'obj' and b[0] == 'obj' and a[1] == b[1] and [x[1] for x in a[2]] == [x[1] for x in b[2]] \
+            and all(x[0] == 'at' for x in a[2] + b[2]):
+        return ('obj', a[1], tuple(('at', x[1], mk_ite(c, x[2], y[2])) for x, y in zip(a[2], b[2])))
     # the same function called on either side: one call with conditional arguments  (f(x) if c else f(y)  ==  f(x if c else y))
     if a[0] == 'call' and b[0] == 'call' and a[1] == b[1] and len(a[2]) == len(b[2]) and len(a[3]) == len(b[3]) \
             and all(x[:2] == y[:2] for x, y in zip(a[3], b[3])) and not any(x[0] == 'star' for x in a[2] + b[2]) \
@@ -2004,7 +2102,28 @@ class PE:
                 visit(c, inner)
         visit(f, [])
         if len(uses) > 1:
+            # a top-level statement `name = consumer(name)` binds the name anew: what follows it reads the new binding
+            for top in f.body:
+                if isinstance(top, ast.Assign) and len(top.targets) == 1 and isinstance(top.targets[0], ast.Name) \
+                        and top.targets[0].id == name and (top.lineno, top.col_offset) >= end:
+                    tend = (top.end_lineno, top.end_col_offset)
+                    inside = [x for x in uses if any(y is x[0] for y in ast.walk(top.value))]
+                    if len(inside) == 1 and all(x in inside or (type(x[1]) is list and 'closure' not in x[1] and '?' not in x[1]
+                                                                and (x[0].lineno, x[0].col_offset) >= tend) for x in uses):
+                        uses = inside
+                    break
+        if len(uses) > 1:
             return False
+        if uses and hasattr(uses[0][0], 'lineno'):
+            # nothing that could change what the iterator reads lies between the binding and the use (the iterator is lazy)
+            u0 = uses[0][0]
+            upos = (u0.lineno, u0.col_offset)
+            for n_ in ast.walk(f):
+                if isinstance(n_, (ast.Call, ast.AugAssign, ast.Delete, ast.Yield, ast.YieldFrom)) \
+                        or (isinstance(n_, (ast.Attribute, ast.Subscript)) and isinstance(n_.ctx, (ast.Store, ast.Del))):
+                    p_ = (n_.lineno, n_.col_offset)
+                    if end <= p_ < upos and not any(x is u0 for x in ast.walk(n_)):
+                        return False
         CONSUMERS = {'list', 'tuple', 'sorted', 'sum', 'max', 'min', 'any', 'all', 'set', 'frozenset', 'bytes', 'bytearray', 'dict',
                      'enumerate', 'zip', 'map', 'filter', 'reversed', 'reduce', 'join', 'extend', 'next'}
         for u, loops in uses:
@@ -2013,6 +2132,8 @@ class PE:
             for p_ in ast.walk(f):
                 if isinstance(p_, (ast.For, ast.comprehension)) and p_.iter is u:
                     ok_ = True
+                    if isinstance(p_, ast.For) and hasattr(stmt, 'value') and self._reads_written(stmt.value, p_.body):
+                        return False          # the loop body changes what the lazy iterator reads
                 elif isinstance(p_, ast.Call) and any(a_ is u for a_ in p_.args):
                     nm_ = p_.func.id if isinstance(p_.func, ast.Name) else (p_.func.attr if isinstance(p_.func, ast.Attribute) else None)
                     ok_ = ok_ or (nm_ in CONSUMERS and nm_ != 'next')
@@ -2963,18 +3084,26 @@ class PE:
                         A = self.tidy(list(A) + rest)
                     out.extend(self._mk_if(e[1], A, B))
                     return out
-                if len(rest) == 1 and rest[0][0] == 'exit' and rest[0][1] in ('end', 'return') and not ta and not tb and (A or B):
-                    # `if c: A else: B` followed by one exit whose value / final state still chooses on c: the exit belongs to
-                    # each branch with its own value (the form an early `return` in one of the branches produces)
-                    ex = rest[0]
+                if 1 <= len(rest) <= 3 and rest[-1][0] == 'exit' and rest[-1][1] in ('end', 'return') and not ta and not tb and (A or B) \
+                        and all(x[0] in ('yield', 'exit') for x in rest):
+                    # `if c: A else: B` followed by (yields and) one exit whose values / final state still choose on c: they belong
+                    # to each branch with its own values (the form an early `return` / `yield` in the branches produces)
                     cc = e[1]
-                    ites = [x for x in walk(ex) if x[0] == 'ite' and len(x) == 4 and x[1] == cc]
-                    if ites:
-                        ea_ = substitute(ex, {x: x[2] for x in ites}, self.opts)
-                        eb_ = substitute(ex, {x: x[3] for x in ites}, self.opts)
-                        if ea_ != eb_ and ea_[0] == 'exit' and eb_[0] == 'exit':
-                            out.extend(self._mk_if(cc, self.tidy(list(A) + [ea_]), self.tidy(list(B) + [eb_])))
-                            return out
+                    ra_, rb_, pushed = [], [], False
+                    for ex in rest:
+                        ites = [x for x in walk(ex) if x[0] == 'ite' and len(x) == 4 and x[1] == cc]
+                        ea_ = substitute(ex, {x: x[2] for x in ites}, self.opts) if ites else ex
+                        eb_ = substitute(ex, {x: x[3] for x in ites}, self.opts) if ites else ex
+                        ea_, eb_ = self._drop_unchanged_roots(ea_), self._drop_unchanged_roots(eb_)
+                        if ea_[0] != ex[0] or eb_[0] != ex[0]:
+                            pushed = False
+                            break
+                        pushed = pushed or (bool(ites) and ea_ != eb_)
+                        ra_.append(ea_)
+                        rb_.append(eb_)
+                    if pushed:
+                        out.extend(self._mk_if(cc, self.tidy(list(A) + ra_), self.tidy(list(B) + rb_)))
+                        return out
                 new = self._mk_if(e[1], A, B)
                 if rest and new and new[-1][0] == 'if' and new[-1] != ('if', e[1], tuple(A), tuple(B)) \
                         and self._terminated(new[-1][2]) != self._terminated(new[-1][3]):
@@ -2990,6 +3119,13 @@ class PE:
                 if e[0] in ('exit', 'break', 'continue'):
                     return out
         return out
+
+    def _drop_unchanged_roots(self, ex):
+        """an exit's final state lists the roots that changed: in a branch where one did not, it is not listed"""
+        if ex[0] == 'exit' and len(ex) == 4 and type(ex[3]) is tuple:
+            st = tuple(r for r in ex[3] if not (type(r) is tuple and len(r) == 3 and r[0] == 'root' and self.roots.get(r[1]) == r[2]))
+            return ex[:3] + (st,)
+        return ex
 
     def _writing(self, name):
         return self.purity is not None and self.purity.is_writing(name)
@@ -3091,8 +3227,105 @@ class PE:
                     return True
         return False
 
+    def _written_roots(self, stmts):
+        w = set(self.assigned_names(stmts))
+        for v_ in list(w):
+            if v_ in self.aliases:
+                w.add(self.aliases[v_][0][0])
+        for v_, al_ in self.aliases.items():
+            if al_[0][0] in w:
+                w.add(v_)
+        return w
+
+    def _live_iterable(self, s):
+        """`for x in map(f, l)` / zip / enumerate / reversed / a generator expression read their sources while the loop runs: when
+        the body may change one of them the loop is not the loop over the list made beforehand"""
+        lazy = isinstance(s.iter, ast.GeneratorExp) or (
+            isinstance(s.iter, ast.Call) and isinstance(s.iter.func, ast.Name)
+            and s.iter.func.id in self.LAZY_BUILTINS)
+        if not lazy:
+            return False
+        return self._reads_written(s.iter, s.body)
+
+    LAZY_BUILTINS = ('map', 'filter', 'zip', 'enumerate', 'reversed', 'iter')
+
+    def _live_parts(self, e):
+        """the sub-expressions of a lazy iterable that are read WHILE it is consumed: the objects it walks over (arguments that
+        are places; an argument that is a call or an arithmetic expression is evaluated once and yields an object of its own),
+        the bodies of lambdas, and everything in a generator expression but its first iterable's own evaluation"""
+        out = []
+
+        def place(a):
+            if isinstance(a, ast.Starred):
+                place(a.value)
+            elif isinstance(a, ast.IfExp):
+                place(a.body)
+                place(a.orelse)
+            elif isinstance(a, (ast.Name, ast.Attribute, ast.Subscript)):
+                out.append(a)
+            elif isinstance(a, ast.Lambda):
+                out.append(a)
+            elif isinstance(a, ast.GeneratorExp) or (isinstance(a, ast.Call) and isinstance(a.func, ast.Name)
+                                                    and a.func.id in self.LAZY_BUILTINS):
+                out.extend(self._live_parts(a))
+        if isinstance(e, ast.GeneratorExp):
+            place(e.generators[0].iter)
+            out.append(e.elt)
+            for k_, g in enumerate(e.generators):
+                out.extend(g.ifs)
+                if k_:
+                    out.append(g.iter)
+        elif isinstance(e, ast.Call):
+            for a in e.args:
+                place(a)
+        else:
+            out.append(e)
+        return out
+
+    def _reads_written(self, expr, stmts):
+        """may the statements change an object (or rebind a name / attribute) that the expression reads?  Access paths
+        (`self.a.b`; an item access ends the path) are compared by prefix; with aliases in play, by root name."""
+        def path(n):
+            p_ = []
+            while isinstance(n, (ast.Attribute, ast.Subscript)):
+                if isinstance(n, ast.Subscript):
+                    p_ = []
+                else:
+                    p_.append(n.attr)
+                n = n.value
+            return ((n.id,) + tuple(reversed(p_))) if isinstance(n, ast.Name) else None
+        reads = set()
+        for part in self._live_parts(expr):
+            for n in ast.walk(part):
+                if isinstance(n, (ast.Attribute, ast.Name, ast.Subscript)) and isinstance(getattr(n, 'ctx', None), ast.Load):
+                    pp = path(n)
+                    if pp:
+                        reads.add(pp)
+        # keep maximal paths only (self.a.b also yields self.a and self while walking)
+        reads = {r for r in reads if not any(o != r and o[:len(r)] == r for o in reads)}
+        writes = set()
+        for st in stmts:
+            for n in ast.walk(st):
+                if isinstance(n, (ast.Attribute, ast.Subscript, ast.Name)) and isinstance(getattr(n, 'ctx', None), (ast.Store, ast.Del)):
+                    pp = path(n.value) if isinstance(n, ast.Subscript) else path(n)
+                    if pp:
+                        writes.add(pp)
+                elif isinstance(n, ast.Call):
+                    if isinstance(n.func, ast.Attribute) and (n.func.attr in MUTATORS or self._writing(n.func.attr)):
+                        pp = path(n.func.value)
+                        if pp:
+                            writes.add(pp)
+                    for r in self._written_args(n):
+                        writes.add((r,))
+        roots = {r[0] for r in reads} | {w[0] for w in writes}
+        if any(v in self.aliases for v in roots) or any(al_[0][0] in roots for al_ in self.aliases.values()):
+            return bool({r[0] for r in reads} & self._written_roots(stmts))
+        return any(r[:len(w)] == w or w[:len(r)] == r for r in reads for w in writes)
+
     def exec_for(self, s, env, effects):
         it = self.ev(s.iter, env)
+        if self._live_iterable(s):
+            it = ('call', ('b', 'live_iter'), (it,), ())
         if isinstance(s.iter, ast.Name) and s.iter.id in env and self._is_iterator(env[s.iter.id]):
             r_ = self._exec_for(s, env, effects, it)
             if s.iter.id in env:
